@@ -44,19 +44,19 @@ PYAGREE = {
     'C06': ['Pdu', 'LayerRx'],
     'C07': ['MiscTimer'],
     'C08': ['MiscTimer', 'LayerTx', 'SmallFns'],
-    'C09': ['AddressFns', 'AddressInit', 'LayerSend'],
+    'C09': ['AddressFns', 'AddressInit', 'LayerSend', 'AddressAccessors'],
     'C12': ['LayerTxHelpers', 'LayerQueues', 'Exec2Bridge', 'LayerSend', 'LayerInit'],
-    'C13': ['PyCan', 'Threaded', 'ThreadedWorker', 'SmallFns'],
+    'C13': ['PyCan', 'Threaded', 'ThreadedWorker', 'SmallFns', 'Ctors'],
     'C14': ['LayerQueues', 'Exec2Bridge', 'Threaded', 'ThreadedWorker', 'LayerInit'],
     'C10': ['LayerProcess', 'LayerWhole', 'LayerIter'],
     'C15': ['LayerTxHelpers', 'LimiterLoop', 'SmallFns'],
     'C16': ['AddressValidate', 'AddressInit', 'ParamsValidate'],
     'C17': ['LayerTxHelpers', 'LayerTx', 'GenConsume', 'LayerInit'],
-    'C19': ['SockOpts'],
-    'C20': ['AddressFns', 'SockOpts', 'SockGuards'],
+    'C19': ['SockOpts', 'Ctors'],
+    'C20': ['AddressFns', 'SockOpts', 'SockGuards', 'AddressAccessors', 'Ctors'],
 }
 # leaves that are finished and committed
-PYAGREE_READY = {'LayerIter', 'ParamsValidate', 'LayerInit', 'LayerInitWhole', 'SmallFns', 'LimiterLoop', 'GenConsume', 'ThreadedWorker', 'Threaded', 'PyCan', 'LayerWhole', 'SockGuards', 'LayerTxWhole', 'MiscFrame', 'LayerProcess', 'LayerTx', 'LayerRx', 'LayerSend', 'LayerTxHelpers', 'LayerQueues', 'Exec2Bridge', 'SockOpts', 'AddressFns', 'AddressValidate', 'AddressInit', 'Pdu', 'MiscFd', 'MiscFc', 'MiscTimer'}
+PYAGREE_READY = {'AddressAccessors', 'Ctors', 'LayerIter', 'ParamsValidate', 'LayerInit', 'LayerInitWhole', 'SmallFns', 'LimiterLoop', 'GenConsume', 'ThreadedWorker', 'Threaded', 'PyCan', 'LayerWhole', 'SockGuards', 'LayerTxWhole', 'MiscFrame', 'LayerProcess', 'LayerTx', 'LayerRx', 'LayerSend', 'LayerTxHelpers', 'LayerQueues', 'Exec2Bridge', 'SockOpts', 'AddressFns', 'AddressValidate', 'AddressInit', 'Pdu', 'MiscFd', 'MiscFc', 'MiscTimer'}
 
 
 def pyagree_theorems(mod):
